@@ -141,6 +141,8 @@ def run(ck, w):
     _version_default_is_unsupported(ck, w)
     _read_hunk_returns_decoded(ck, w)
     common.hunk_listing_complete(ck, w, "C10.3h")
+    from props import C08 as _c08
+    _c08.band_left_only_when_exhausted(ck, w, "C10.3i")
 
     # ---- 3. loudness on restore / list ---------------------------------------------------------------------
     o = ck.ob("C10.3", "under restore and iter_entries every read/decoding failure is reported or propagated")
